@@ -126,6 +126,15 @@ func (s *streamer) makeBlocked(stream *stream) {
 	s.blockedMu.Unlock()
 }
 
+// isBlocked tells whether the stream is in the blocked list, i.e. its owner waits in blockGet.
+func (s *streamer) isBlocked(stream *stream) bool {
+	s.blockedMu.Lock()
+	blocked := stream.blockIndex != -1
+	s.blockedMu.Unlock()
+
+	return blocked
+}
+
 func (s *streamer) resetBlocked(stream *stream) {
 	s.blockedMu.Lock()
 	if stream.blockIndex == -1 {
